@@ -384,6 +384,10 @@ func drawC19(t *rapid.T) C19Case {
 	s := gen.DrawSchema(t, gen.SmallProfile, 2, 4)
 	c := C19Case{Spec: drawTokSpec(t, s, 2), Reload: rapid.Bool().Draw(t, "reload")}
 	c.Spec.Sealed = false
+	// chains of different lengths: shared slices have spare capacity only at some lengths
+	for i := rapid.SampledFrom([]int{0, 0, 1, 2, 3, 3, 4, 5}).Draw(t, "moreblocks"); i > 0; i-- {
+		c.Spec.Blocks = append(c.Spec.Blocks, drawSimpleBlock(t, s))
+	}
 	// tables with spare capacity: 2-5 symbols in the authority block
 	for i := 0; i < rapid.IntRange(2, 5).Draw(t, "nsym"); i++ {
 		c.Spec.Blocks[0].Facts = append(c.Spec.Blocks[0].Facts, m.P("cap", m.Str(fmt.Sprintf("spare%d", i))))
